@@ -149,6 +149,13 @@ func corpus() []corpusEntry {
 		{"tuple of list and tuple -> list(dynamic)", tv(lv(nv(1)), tv(sv("a"))), m.ListOf(tD)},
 		{"tuple of empty and non-empty tuples -> list(dynamic)", tv(cty.EmptyTupleVal, tv(sv("a"))), m.ListOf(tD)},
 		{"object with null and list -> map(dynamic)", ov("a", cty.NullVal(cty.DynamicPseudoType), "b", lv(sv("x"))), m.MapOf(tD)},
+		{"F-108b unknown tuple(tuple(string), set(bool)) -> list(set(dynamic))", cty.UnknownVal(cty.Tuple([]cty.Type{cty.Tuple([]cty.Type{cty.String, cty.String}), cty.Set(cty.Bool)})), m.ListOf(m.SetOf(tD))},
+		{"F-108b known tuple(tuple(string), set(bool)) -> list(set(dynamic))", tv(tv(sv("x"), sv("a")), setv(cty.False, cty.True)), m.ListOf(m.SetOf(tD))},
+		// --- F-108a: map -> object, optional attribute with a placeholder (absent key gives a null of the placeholder type)
+		{"F-108a known map, absent optional placeholder attribute", mv("b", cty.True), obj("a?", tD, "b?", tD, "c?", tS)},
+		{"F-108a unknown map", cty.UnknownVal(cty.Map(cty.Bool)), obj("a?", tD, "b?", tD, "c?", tS)},
+		{"F-108a unknown list of maps", cty.UnknownVal(cty.List(cty.Map(cty.Bool))), m.ListOf(obj("a?", tD))},
+		{"F-108a empty list of maps", cty.ListValEmpty(cty.Map(cty.Bool)), m.ListOf(obj("a?", tD))},
 		{"list -> tuple (docs chart: unsafe)", lv(sv("a")), m.TupleOf(tS)},
 		{"set -> tuple (docs chart: unsafe)", setv(sv("a")), m.TupleOf(tS)},
 		// --- sets
@@ -227,6 +234,9 @@ func catalogue() []corpusEntry {
 		{"object -> smaller object", ov("a", sv("x"), "b", nv(1)), obj("a", tS)},
 		{"object -> object with optional", ov("a", sv("x"), "b", nv(1)), obj("a", tS, "b", tS, "c?", obj("d?", tB))},
 		{"map -> object", mv("a", sv("1"), "b", sv("2")), obj("a", tN, "b?", tN, "c?", tS)},
+		{"map -> object with optional placeholder attributes (F-108a)", mv("b", cty.True), obj("a?", tD, "b?", tD, "c?", tS)},
+		{"tuple holding a map -> tuple(object with optional placeholder) (F-108a)", tv(sv("x"), cty.MapValEmpty(cty.Bool)), m.TupleOf(tD, obj("c?", tD))},
+		{"list of maps -> list(object with optional placeholder) (F-108a)", lv(mv("b", cty.True)), m.ListOf(obj("a?", tD, "b", tB))},
 		{"map -> map(number)", mv("a", sv("1"), "b", sv("2")), m.MapOf(tN)},
 		{"set -> list(number)", setv(sv("1"), sv("2")), m.ListOf(tN)},
 		{"set -> set(number)", setv(sv("1"), sv("2")), m.SetOf(tN)},
@@ -243,6 +253,11 @@ func catalogue() []corpusEntry {
 		{"map of lists -> map(set)", mv("a", lv(sv("x"), sv("y"), sv("x"))), m.MapOf(m.SetOf(tS))},
 		{"tuple of tuples -> list(list(dynamic))", tv(tv(nv(1)), tv(sv("a"))), m.ListOf(m.ListOf(tD))},
 		{"object of objects -> map(map(dynamic))", ov("a", ov("x", nv(1)), "b", ov("x", sv("s"))), m.MapOf(m.MapOf(tD))},
+		// F-108b: members are converted first and unified afterwards; the type predicted for an unknown input must follow
+		{"tuple(tuple(string), set(bool)) -> list(set(dynamic))", tv(tv(sv("x"), sv("a")), setv(cty.False, cty.True)), m.ListOf(m.SetOf(tD))},
+		{"object(tuple(string), set(bool)) -> map(set(dynamic))", ov("a", tv(sv("x")), "b", setv(cty.True)), m.MapOf(m.SetOf(tD))},
+		{"tuple(tuple(number), list(bool)) -> list(list(dynamic))", tv(tv(nv(1)), lv(cty.True)), m.ListOf(m.ListOf(tD))},
+		{"tuple(object, map(bool)) -> list(map(dynamic))", tv(ov("a", sv("x")), mv("a", cty.True)), m.ListOf(m.MapOf(tD))},
 		{"value -> dynamic", ov("a", lv(sv("x")), "b", nv(1)), tD},
 		{"object -> object with placeholder attribute", ov("a", lv(sv("x")), "b", nv(1)), obj("a", tD, "b", tS)},
 	}
